@@ -25,8 +25,12 @@ func ParseBlockRange(s string) (*BlockRange, error) {
 	if strings.Contains(s, ":") {
 		parts := strings.SplitN(s, ":", 2)
 		
+		if parts[0] == "" && parts[1] == "" {
+			return nil, fmt.Errorf("empty block range: %s", s)
+		}
+
 		if parts[0] != "" {
-			start, err := strconv.Atoi(parts[0])
+			start, err := parseBlockNumber(parts[0])
 			if err != nil {
 				return nil, fmt.Errorf("invalid start block: %s", parts[0])
 			}
@@ -37,7 +41,7 @@ func ParseBlockRange(s string) (*BlockRange, error) {
 		}
 		
 		if parts[1] != "" {
-			end, err := strconv.Atoi(parts[1])
+			end, err := parseBlockNumber(parts[1])
 			if err != nil {
 				return nil, fmt.Errorf("invalid end block: %s", parts[1])
 			}
@@ -48,7 +52,7 @@ func ParseBlockRange(s string) (*BlockRange, error) {
 		}
 	} else {
 		// Single block number
-		block, err := strconv.Atoi(s)
+		block, err := parseBlockNumber(s)
 		if err != nil {
 			return nil, fmt.Errorf("invalid block number: %s", s)
 		}
@@ -65,6 +69,16 @@ func ParseBlockRange(s string) (*BlockRange, error) {
 	}
 
 	return br, nil
+}
+
+// parseBlockNumber parses a block number written with decimal digits only (no sign, no spaces)
+func parseBlockNumber(s string) (int, error) {
+	for i := 0; i < len(s); i++ {
+		if s[i] < '0' || s[i] > '9' {
+			return 0, strconv.ErrSyntax
+		}
+	}
+	return strconv.Atoi(s)
 }
 
 // ReadBlockRange reads a specific range of blocks from a file
